@@ -311,7 +311,7 @@ Q q_ctor_sv()
     STR_PRE(s, SLEN, pos, n, zero, one);
     NEW(o); k_new_sv(o, s, SLEN, pos, n, zero, one); om.from_str<CH, SLEN>(s, SLEN, pos, n, zero, one);
     observe(o, om);
-    if (SLEN > 1 && pos > 0 && rlen_of(SLEN, pos, n) < SLEN - pos && rlen_of(SLEN, pos, n) > 0) vf_witness("inner part of the string used");
+    if (SLEN > 2 && pos > 0 && rlen_of(SLEN, pos, n) < SLEN - pos && rlen_of(SLEN, pos, n) > 0) vf_witness("inner part of the string used");
 }
 Q q_ctor_sv_pn()
 {
@@ -342,7 +342,7 @@ Q q_ctor_cs()
     STR_PRE(s, n, u64(0), n, zero, one);
     NEW(o); k_new_cs(o, s, n, zero, one); om.from_str<CH, SLEN>(s, n, 0, n, zero, one);
     observe(o, om);
-    if (n == SLEN) vf_witness("whole block used");
+    if (SLEN <= NBITS && n == SLEN) vf_witness("whole block used");
 }
 // (str, npos, zero, one): NUL-terminated
 Q q_ctor_cs_npos()
